@@ -288,8 +288,10 @@ def build(inst):
         up["restarts.rhoend_scale"] = float(inst["rhoend_scale"])
     if inst.get("incnpt"):
         up["restarts.increase_npt"] = True
-        # never above (n+1)(n+2)/2 (hard restarts re-initialise with the coordinate scheme, which asserts that bound: documented limitation)
         up["restarts.max_npt"] = max(int(kw.get("npt", n + 1)), min(int(kw.get("npt", n + 1)) + int(inst["incnpt"]), (n + 1) * (n + 2) // 2))
+        if inst.get("maxnpt_over"):
+            # a cap above (n+1)(n+2)/2, which the documented range allows: hard restarts must stop adding points by themselves (F-34)
+            up["restarts.max_npt"] = (n + 1) * (n + 2) // 2 + int(inst["maxnpt_over"])
     if "abs_tol" in inst:
         up["model.abs_tol"] = float(inst["abs_tol"])
     if "rel_tol" in inst:
